@@ -86,6 +86,12 @@ fn main() {
         }
         // C18: key builders
         "keys" => keys::keys_trace(&mut out, &mut rng, ops),
+        // AsyncCache on a current-thread runtime, stepped: same protocol and model as `cache`
+        "acache" => {
+            let lives = arg_u64(&args, "--lives", 20) as usize;
+            let g = acache::AGenOpts { ops, w_ttl: arg_u64(&args, "--w-ttl", 40), collisions: arg_u64(&args, "--collisions", 0) == 1 };
+            acache::acache_trace(&mut out, &mut rng, lives, &g);
+        }
         // C17: the histogram type behind life_expectancy_seconds(), through its public API
         "hist" => {
             let lives = arg_u64(&args, "--lives", 30) as usize;
@@ -121,6 +127,11 @@ fn main() {
                     "ttl_mix" => live::ttl_mix(rounds * 1500),
                     "workers_exit" => live::workers_exit((rounds / 5).max(12)),
                     "async_barrier" => live::async_barrier(rounds),
+                    "clear_burst" => live::clear_burst((rounds / 10).max(10), false),
+                    "async_clear_burst" => live::clear_burst((rounds / 10).max(10), true),
+                    "async_ring_accounting" => live::async_ring_accounting((rounds / 30).max(8)),
+                    "async_sweep_race" => live::async_sweep_race((rounds / 300).max(1)),
+                    "async_sweep_under_traffic" => live::async_sweep_under_traffic(),
                     "async_protocol_storm" => live::async_protocol_storm((rounds / 4).max(10), seed),
                     "invariants" => invariants::sync_invariants((rounds / 10).max(10), seed, &arg(&args, "--prop").unwrap_or_else(|| "all".to_string())),
                     "async_invariants" => invariants::async_invariants((rounds / 10).max(10), seed, &arg(&args, "--prop").unwrap_or_else(|| "all".to_string())),
